@@ -26,6 +26,10 @@ def scenarios(rng, tier):
                 for N in sorted(set(ns)):
                     out.append(dict(w=128, h=64, n=N, decode=0, pace=(rng.choice([0, 1, 1, -1, 3]) if N <= 8 else 1), pseed=rng.randrange(1000),
                                     **{'f:enc_mode': 8, 'f:hierarchical_levels': hl, 'f:intra_period_length': P, 'f:intra_refresh_type': rt}))
+    # overlay pictures (ALT-REF + overlay pairs): more coded frames than submitted pictures, so frame counts and picture numbers part ways
+    # (three layers and fewer: four and five layers with overlays can hang at end of stream, a listed finding of C11)
+    for hl, N in ((3, 17), (3, 25), (2, 13), (3, 9)) + (((3, 33), (2, 21), (1, 12)) if tier == 'thorough' else ()):
+        out.append(dict(w=128, h=64, n=N, decode=0, pace=1, pseed=7, **{'f:enc_mode': 8, 'f:hierarchical_levels': hl, 'f:enable_overlays': 1, 'f:intra_period_length': -1}))
     out.append(dict(w=128, h=64, n=0, decode=0, **{'f:enc_mode': 8}))
     return out
 
